@@ -1054,6 +1054,12 @@ impl<T: Clone> Clone for ValVec32<T> {
             .or_else(|_| Self::with_capacity(1.max(self.len / 4)))
             .unwrap_or_else(|_| Self::new());
 
+        // Zero-sized elements need no storage: with_capacity() hands back capacity 0 for them,
+        // which would make the clone empty. Same convention as grow_to().
+        if mem::size_of::<T>() == 0 {
+            new_vec.capacity = MAX_CAPACITY;
+        }
+
         // Use bulk copy for better performance
         if self.len > 0 && new_vec.capacity >= self.len {
             unsafe {
